@@ -4,6 +4,8 @@ set -e
 cd "$(dirname "$0")/lean"
 exes=""
 for f in Driver/*.lean; do
-  exes="$exes drv_$(basename "$f" .lean | tr 'A-Z' 'a-z')"
+  exe="drv_$(basename "$f" .lean | tr 'A-Z' 'a-z')"
+  # a driver without a lean_exe entry in lakefile.toml is run as a script (lake env lean --run Driver/X.lean)
+  if grep -q "name = \"$exe\"" lakefile.toml; then exes="$exes $exe"; fi
 done
 lake build I2N $exes
